@@ -208,8 +208,16 @@ class ASTCFG(dict[str, WritableASTBlock]):
                     elif len(b.jump_targets) == 2:
                         if b.jump_targets[0] == name:
                             b.jump_targets[0] = it
-                        elif b.jump_targets[1] == name:
+                        if b.jump_targets[1] == name:
                             b.jump_targets[1] = it
+                        if b.jump_targets[0] == b.jump_targets[1]:
+                            # Both branches were empty and lead to the same
+                            # block now. The test decides nothing any more,
+                            # but it must still be evaluated.
+                            b.jump_targets = b.jump_targets[:1]
+                            test = b.instructions[-1]
+                            if isinstance(test, ast.expr):
+                                b.instructions[-1] = ast.Expr(test)
         self.empty = empty
         return empty
 
